@@ -16,8 +16,14 @@ func extSizedTokens(r *Rand, tier string) []string {
 	}
 	kinds := []string{"i8", "i16", "i32", "i64", "i", "b", "u8", "u16", "u32", "u64", "u", "bool", "str", "f32", "f64"}
 	var out []string
+	// the four large counts only for a few kinds (each such op line is megabytes: the Lean driver
+	// needs a minute for it)
+	bigKinds := map[string]bool{"i8": true, "str": true, "f64": true, "bool": true, "u64": true}
 	for _, k := range kinds {
 		for _, n := range sizes {
+			if n > 1000 && !bigKinds[k] {
+				continue
+			}
 			elem := func(i int) string {
 				switch k {
 				case "bool":
